@@ -12,6 +12,13 @@ Lemma impl_limits :
   (672 <=? length g_limits)%nat = true.
 Proof. split; vm_compute; reflexivity. Qed.
 
+(** the same from the numbers of a go line (uci.go: time.Millisecond * time.Duration(n), wrapping) *)
+Lemma impl_go_limits :
+  forallb (fun r => let '(w, b, mv, c, soft, hard) := r in
+                    let '(s, h) := go_limits w b mv c in (s =? soft) && (h =? hard)) g_go_limits = true /\
+  (840 <=? length g_go_limits)%nat = true.
+Proof. split; vm_compute; reflexivity. Qed.
+
 Definition entry_pd (ply depth : Z) : entry := fresh_entry 0%N 0%N ply depth zero_score no_move.
 Lemma impl_tt_val :
   forallb (fun r => let '(ply, depth, v) := r in (Z.of_N (val (Some (entry_pd ply depth))) =? v)) g_tt_val = true /\
